@@ -805,12 +805,26 @@ fn main() {
     }
     for (n, loops) in ex {
         let bits = graph_bits(n, loops);
+        if n == 5 {
+            // one case per 32 consecutive graphs (keeps the transcript short): 2^20 graphs in 2^15 cases
+            let mut code = 0u64;
+            while code < (1u64 << bits) {
+                no += 1;
+                let all: Vec<usize> = (0..n).collect();
+                let ls: Vec<String> = (code..code + 32)
+                    .map(|c| format!("topo {} {}", show_l(&all), show_adj(&graph_from_code(n, c, loops))))
+                    .collect();
+                run_case(no, &format!("kind=topo exhaustive n={n} batch"), &ls, &mut rec);
+                code += 32;
+            }
+            continue;
+        }
         for code in 0..(1u64 << bits) {
             let adj = graph_from_code(n, code, loops);
             no += 1;
             let mut rng = root.fork(0x1000_0000 + no);
             // extra id orders / validate lines on the small scopes only (keeps the stream bounded)
-            let extra = n <= 3 || (n == 4 && !loops) || code % 64 == 0;
+            let extra = n <= 3 || code % 16 == 0;
             let ls = topo_lines(&mut rng, &adj, extra);
             run_case(no, &format!("kind=topo exhaustive n={n}"), &ls, &mut rec);
         }
